@@ -226,7 +226,7 @@ def P(spec):
 class Fn:
     def __init__(self, name, deps, params, ret="u64", is_async=False, calls=(), opts="",
                  props=("C01",), below="", trait=None, vis="pub", send=True, generics=(), where=(),
-                 bundle_args="", default_body=False, attrs="", unsafe_=False):
+                 bundle_args="", default_body=False, attrs="", unsafe_=False, big=False):
         self.name = name
         self.trait = trait or "".join(w.capitalize() for w in name.split("_"))
         self.deps = deps  # (form, [bounds])
@@ -245,6 +245,7 @@ class Fn:
         self.default_body = default_body
         self.attrs = attrs
         self.unsafe_ = unsafe_
+        self.big = big
         self.fn_id = None
         self.method_id = None
         self.container = None  # module name / impl target
@@ -267,6 +268,10 @@ FN_COUNTER = [0]
 METHOD_COUNTER = [0]
 ALL_FNS = {}      # name -> Fn  (callee lookup)
 METHODS = []      # dispatchable methods in order
+
+
+SMALL_RETS = {"boolr": ("1", "__r == 1"), "u8r": ("0xff", "__r as u8"), "u32r": ("0x7fff_ffff", "__r as u32"),
+              "i32r": ("0x7fff_ffff", "__r as i32"), "usizer": ("0x7fff_ffff", "__r as usize")}
 
 
 def lifetimes(fn):
@@ -311,7 +316,8 @@ def fn_text(fn, indent="", in_impl=False):
     params = ([first] if first else []) + [p.sig(i, fn.name) for i, p in enumerate(fn.params)]
     ret = {"u64": " -> u64", "unit": "", "refarg": " -> &'a u64", "refdeps": " -> &'a u64",
            "result": " -> Result<u64, u64>", "tracked": " -> Tracked", "opt": " -> Option<u64>",
-           "implfp": " -> impl Fp", "explicit_unit": " -> ()"}[fn.ret]
+           "implfp": " -> impl Fp", "explicit_unit": " -> ()",
+           "boolr": " -> bool", "u8r": " -> u8", "u32r": " -> u32", "i32r": " -> i32", "usizer": " -> usize"}[fn.ret]
     w = f" where {', '.join(where)}" if where else ""
     asy = ("async " if fn.is_async else "") + ("unsafe " if fn.unsafe_ else "")
     vis = (fn.vis + " ") if fn.vis else ""
@@ -321,6 +327,9 @@ def fn_text(fn, indent="", in_impl=False):
     lines = []
     lines.append(f"let __f = sim::enter({fn.fn_id}, {recv}, &[{', '.join(fps)}]);")
     lines.append("sim::user_alloc(&__f);")
+    if fn.big:
+        # a 4 KiB buffer kept alive across the awaits: the function's own future is large
+        lines.append("let __big = sim::big_buf(&__f);")
     if fn.is_async:
         lines.append("sim::pause(&__f).await;")
     children = []
@@ -338,8 +347,14 @@ def fn_text(fn, indent="", in_impl=False):
         if fn.is_async:
             lines.append("sim::pause(&__f).await;")
     ch = ", ".join(children)
+    if fn.big:
+        lines.append("std::hint::black_box(&__big);")
     if fn.ret in ("u64", "implfp"):
         lines.append(f"sim::exit(__f, &[{ch}])")
+    elif fn.ret in SMALL_RETS:
+        mask, conv = SMALL_RETS[fn.ret]
+        lines.append(f"let __r = sim::exit_masked(__f, &[{ch}], {mask});")
+        lines.append(conv)
     elif fn.ret in ("unit", "explicit_unit"):
         lines.append(f"let _ = sim::exit(__f, &[{ch}]);")
     elif fn.ret == "refarg":
@@ -494,7 +509,21 @@ single(Fn("at_unit_explicit", ("impl", ["Af0"]), ["u64", "u64"], ret="explicit_u
 single(Fn("at_implret", ("impl", ["Af0"]), ["u64", "u64"], ret="implfp", is_async=True))
 single(Fn("at_unsafe", ("impl", ["Af0"]), ["u64", "u64"], unsafe_=True, is_async=True))
 single(Fn("and_nosend", ("nodeps", []), ["u64", "u64"], opts="no_deps, ?Send", is_async=True, send=False))
+single(Fn("abig", ("impl", ["Af0"]), ["u64", "u64"], is_async=True, calls=["af0"], big=True, props=("C01", "C14")))
+single(Fn("abig2", ("impl", ["Abig"]), ["u64", "u64"], is_async=True, calls=["abig"], big=True, props=("C01", "C14")))
+single(Fn("abig3", ("impl", ["Abig2", "Af3"]), ["u64"], is_async=True, calls=["abig2"], props=("C01", "C14")))
+single(Fn("r_bool", ("impl", ["F0"]), ["u64", "u64"], ret="boolr"))
+single(Fn("r_u32", ("impl", ["F0"]), ["u64"], ret="u32r", calls=["f0"]))
+single(Fn("r_i32", ("any", []), [], ret="i32r"))
+single(Fn("r_usize", ("impl", ["F0"]), [], ret="usizer"))
+single(Fn("ar_u8", ("impl", ["Af0"]), ["u64"], ret="u8r", is_async=True))
 # no_deps
+single(Fn("nd0_bool", ("nodeps", []), [], opts="no_deps", ret="boolr"))
+single(Fn("nd0_u32", ("nodeps", []), [], opts="no_deps", ret="u32r"))
+single(Fn("nd0_i32", ("nodeps", []), [], opts="no_deps", ret="i32r"))
+single(Fn("nd0_usize", ("nodeps", []), [], opts="no_deps", ret="usizer"))
+single(Fn("nd0_unit", ("nodeps", []), [], opts="no_deps", ret="unit"))
+single(Fn("and0", ("nodeps", []), [], opts="no_deps", is_async=True))
 single(Fn("nd0", ("nodeps", []), [], opts="no_deps"))
 single(Fn("nd2", ("nodeps", []), ["u64", "u64"], opts="no_deps"))
 single(Fn("nd3", ("nodeps", []), ["u64", "tracked", "u64"], opts="no_deps"))
@@ -552,6 +581,13 @@ module("mh", "Mh", [
 module("mnd", "Mnd", [
     Fn("mna", ("nodeps", []), ["u64", "u64"]),
     Fn("mnb", ("nodeps", []), ["u64", "u64"]),
+    Fn("mn0", ("nodeps", []), []),
+    Fn("mn0b", ("nodeps", []), []),
+], opts="no_deps")
+module("mndh", "Mndh", [
+    Fn("mn_bool", ("nodeps", []), [], ret="boolr"),
+    Fn("mn_i32", ("nodeps", []), [], ret="i32r"),
+    Fn("mn_u32", ("nodeps", []), ["u64"], ret="u32r"),
 ], opts="no_deps")
 
 N_PLAIN = METHOD_COUNTER[0]
@@ -640,8 +676,9 @@ def self_impl_fn_text(fn, id_expr):
     return f"{attrs}    {asy}fn {fn.name}{g}({', '.join(params)}){ret} {{\n{body}\n    }}\n"
 
 
-def trait_section(name, delegate, methods, async_trait=False, generic=False, supers=""):
-    """delegate: 'self' | 'ref' | 'borrow'"""
+def trait_section(name, delegate, methods, async_trait=False, generic=False, supers="", scoped=False):
+    """delegate: 'self' | 'ref' | 'borrow'; scoped: declare everything inside a
+    module that imports Borrow / AsRef / Deref, as user code commonly does"""
     het = any(fn.hetero for fn in methods)
     cfg = HET if het else ""
     for fn in methods:
@@ -689,6 +726,10 @@ def trait_section(name, delegate, methods, async_trait=False, generic=False, sup
             m.direct_call = f"{name}::{m.name}(&app.{field}, {{args}})"
     for m in methods:
         m.trait_call = f"app.{m.name}({{args}})"
+    if scoped:
+        inner = "\n".join("    " + l if l else l for l in text.split("\n"))
+        text = (f"{cfg}pub mod scope_{name.lower()} {{\n    use super::*;\n    #[allow(unused_imports)]\n"
+                f"    use std::{{borrow::Borrow, convert::AsRef, ops::Deref}};\n{inner}}}\n{cfg}pub use scope_{name.lower()}::{name};\n")
     corpus.append(text)
     bundle_traits.append((name + ("<u64>" if generic else ""), het))
 
@@ -735,6 +776,18 @@ trait_section("ByBorrow", "borrow", [
     Fn("b_unit", SELF, ["u64", "u64"], ret="unit"),
     Fn("b0", SELF, []),
 ], supers=": 'static")
+trait_section("ByBorrowS", "borrow", [
+    Fn("bs1", SELF, ["u64", "u64"]),
+    Fn("bs2", SELF, ["u64", "u64"]),
+], supers=": 'static", scoped=True)
+trait_section("ByRefS", "ref", [
+    Fn("rs1", SELF, ["u64", "u64"]),
+    Fn("rs_unit", SELF, ["u64"], ret="unit"),
+], supers=": 'static", scoped=True)
+trait_section("PlainS", "self", [
+    Fn("pls1", SELF, ["u64", "u64"]),
+    Fn("pls2", SELF, ["u64", "u64"]),
+], scoped=True)
 trait_section("APlain", "self", [
     Fn("ap1", SELF, ["u64", "u64"], is_async=True),
     Fn("ap2", SELF, ["u64", "u64"], is_async=True),
@@ -777,8 +830,10 @@ bundle_traits.append(("SlotRef", False))
 # --------------------------------------------------------------------------
 
 
-def inversion(trait, impl_trait, mode, methods, delegate_ident=None, async_trait=False):
-    """methods: list of (decl Fn with SELF deps, impl deps form, calls)"""
+def inversion(trait, impl_trait, mode, methods, delegate_ident=None, async_trait=False, path_targets=False):
+    """methods: list of (decl Fn with SELF deps, impl deps form, calls);
+    path_targets: the impl blocks are written for `module::Type` paths while a
+    same-named decoy type with same-named inherent functions is in scope"""
     at = "#[async_trait::async_trait]\n" if async_trait else ""
     decls = []
     het = any(d.hetero for d, _, _ in methods)
@@ -802,8 +857,24 @@ def inversion(trait, impl_trait, mode, methods, delegate_ident=None, async_trait
     else:
         attr = f"#[entrait({impl_trait}, delegate_by = ref)]"
     text = f"{cfg}{attr}\n{at}pub trait {trait} {{\n" + "".join(decl_text(d) for d in decls) + "}\n"
-    for which, target in enumerate([f"{trait}TargetA", f"{trait}TargetB"]):
-        text += f"pub struct {target}(pub u64);\n"
+    targets = [f"{trait}TargetA", f"{trait}TargetB"]
+    if path_targets:
+        tn = f"{trait}Tgt"
+        targets = [f"{trait.lower()}_pa::{tn}", f"{trait.lower()}_pb::{tn}"]
+        text += f"pub mod {trait.lower()}_pa {{\n    pub struct {tn}(pub u64);\n}}\npub mod {trait.lower()}_pb {{\n    pub struct {tn}(pub u64);\n}}\n"
+        # the decoy: same last path segment, same function names, compatible signatures
+        text += f"pub struct {tn}(pub u64);\nimpl {tn} {{\n"
+        for decl, deps, calls in methods:
+            g = method_generics(decl)
+            g = (g[:-1] + ", D>") if g else "<D>"
+            ps = ["deps: &D"] + [p.sig(i, decl.name) for i, p in enumerate(decl.params)]
+            asy = "async " if decl.is_async else ""
+            text += (f"    pub {asy}fn {decl.name}{g}({', '.join(ps)}) -> u64 {{\n        let __f = sim::enter(60001, sim::addr(deps), &[]);\n"
+                     f"        sim::exit(__f, &[])\n    }}\n")
+        text += "}\n"
+    for which, target in enumerate(targets):
+        if not path_targets:
+            text += f"pub struct {target}(pub u64);\n"
         iattr = "#[entrait]" if mode == "static" else "#[entrait(ref)]"
         text += f"{cfg}{iattr}\n{at}impl {impl_trait} for {target} {{\n"
         for decl, deps, calls in methods:
@@ -824,7 +895,8 @@ def inversion(trait, impl_trait, mode, methods, delegate_ident=None, async_trait
                      f"        sim::lookup({k});\n        &self.{field}\n    }}\n}}\n")
     for d in decls:
         d.trait_call = f"app.{d.name}({{args}})"
-        d.direct_call = f"{trait}Target{{AB}}::{d.name}(app, {{args}})"
+        d.direct_call = (f"{trait.lower()}_p{{ab}}::{trait}Tgt::{d.name}(app, {{args}})" if path_targets
+                         else f"{trait}Target{{AB}}::{d.name}(app, {{args}})")
         d.recv_expr = "sim::addr(app)"
         d.lookups = 0 if mode == "static" else 1
         if mode != "static":
@@ -849,6 +921,14 @@ inversion("InvH", "InvHImpl", "static", [
     (Fn("i_fn", SELF, ["fn", "u64"]), ("impl", ["F0"]), ["f0"]),
     (Fn("i_str", SELF, ["str", "string"]), ("any", []), []),
 ], delegate_ident="DelegateInvH")
+inversion("InvP", "InvPImpl", "static", [
+    (Fn("ip1", SELF, ["u64", "u64"]), ("gen", ["F0"]), ["f0"]),
+    (Fn("ip2", SELF, ["u64", "u64"]), ("any", []), []),
+], delegate_ident="DelegateInvP", path_targets=True)
+inversion("DynInvP", "DynInvPImpl", "dyn", [
+    (Fn("dp1", SELF, ["u64", "u64"]), ("impl", ["F0"]), ["f0"]),
+    (Fn("dp2", SELF, ["u64", "u64"]), ("any", []), []),
+], path_targets=True)
 inversion("AInv", "AInvImpl", "static", [
     (Fn("ai1", SELF, ["u64", "u64"], is_async=True), ("impl", ["Af0"]), ["af0"]),
     (Fn("ai2", SELF, ["u64", "u64"], is_async=True), ("impl", ["Af1", "F0"]), ["af1", "f0"]),
@@ -1031,6 +1111,8 @@ def build_args(fn):
 
 
 def ret_fp(fn):
+    if fn.ret in SMALL_RETS:
+        return "__r as u64"
     return {"u64": "__r", "unit": "{ let () = __r; 0 }", "explicit_unit": "{ let () = __r; 0 }", "implfp": "sim::Fp::fp(&__r)", "refarg": "*__r", "refdeps": "*__r",
             "result": "match __r { Ok(x) | Err(x) => x }", "opt": "__r.unwrap_or(0)",
             "tracked": "{ let id = __r.id; drop(__r); id }"}[fn.ret]
@@ -1058,7 +1140,7 @@ def arm(fn, ab, is_async, mock=False):
     else:
         tc, dc, recv = plain_calls(fn)
     tc = tc.replace("{args}", args).replace(", )", ")")
-    dc = dc.replace("{args}", args).replace("{AB}", ab).replace(", )", ")")
+    dc = dc.replace("{args}", args).replace("{AB}", ab).replace("{ab}", ab.lower()).replace(", )", ")")
     aw = ".await" if fn.is_async else ""
     if mock:
         dc = tc  # the un-mock twin is chosen by the executor, not here
